@@ -60,7 +60,7 @@ def inline(rng: random.Random, depth=0, hazards=True) -> str:
     if r < 0.82:
         return rng.choice(["\\*", "\\.", "1\\.", "\\#", "\\_x\\_", "\\[", "\\>", "a\\.b"])
     if r < 0.84:
-        return rng.choice(["~~del~~", "~x~", "~60"])
+        return rng.choice(["~~del~~", "~x~", "~60", "~$100~", "~(x)~", "~a b.~"])
     if r < 0.86:
         return "note[^fn]"
     if r < 0.90:
@@ -120,22 +120,39 @@ def block(rng: random.Random, depth=0) -> list[str]:
             ls = [ls[0]] + [L.choice(["  ", "   ", " "]) + l for l in ls[1:]]   # lazy / indented continuation
         return ls
     if r < 0.38:
-        t = inline_seq(rng, rng.randint(1, 5), 0, hazards=False)
-        if rng.random() < 0.15:
+        toks = [inline(rng, 0, False) for _ in range(rng.randint(1, 5))]
+        if rng.random() < 0.2 and len(toks) >= 2:
+            k = rng.randrange(len(toks) - 1)                    # emphasis over two adjacent words (a line break may fall inside it)
+            toks[k], toks[k + 1] = "*" + toks[k].replace("*", ""), toks[k + 1].replace("*", "") + "*"
+        L = _L(rng)
+        bold = rng.random() < 0.15
+        setext = rng.random() < 0.25
+        under = rng.choice(["===", "---", "=", "------"])
+        if setext:
+            brk = L.randrange(len(toks)) if (len(toks) >= 2 and L.random() < 0.5) else -1
+            t = ""
+            for i, tk in enumerate(toks):
+                t += tk if i == 0 else (("\n" if i == brk else L.choice([" ", " ", "  "])) + tk)
+            if t.split("\n")[-1].lstrip()[:1] in "-=+*>#" or any(l.strip() == "" for l in t.split("\n")):
+                t = t.replace("\n", " ")
+        else:
+            t = toks[0] + "".join(L.choice([" ", " ", "   "]) + tk for tk in toks[1:])
+        if bold:
             t = "**" + t.replace("*", "") + "**"
-        if rng.random() < 0.25:
-            return [t, rng.choice(["===", "---", "=", "------"])]
+        if setext:
+            return t.split("\n") + [under]
         return ["#" * rng.randint(1, 6) + " " + t + _L(rng).choice(["", "", " #", " ##"])]
     if r < 0.45:
         fence = rng.choice(["```", "```", "~~~", "````", "~~~~"])
         info = rng.choice(["", "py", "python title=\"x\"", "c++", "a\\*b"])
         if fence[0] == "`" and "`" in info:
             info = ""
-        body = [rng.choice(["code   here", "", "  indented", "```", "~~~", "> not quote", "- not list", "    deep", "x = \"q\"...", "\ttab", "`` ` ``"]) for _ in range(rng.randint(0, 5))]
+        body = [rng.choice(["code   here", "", "  indented", "```", "~~~", "> not quote", "- not list", "    deep", "x = \"q\"...", "\ttab", "`` ` ``",
+                           "{% for x in xs %}", "  - {{ x }}", "{% endfor %}", "wait...what 'q'"]) for _ in range(rng.randint(0, 5))]
         body = [b for b in body if not (b.strip().startswith(fence[0] * 3) and len(b.strip()) >= len(fence) and set(b.strip()) == {fence[0]})]
         return [fence + info] + body + [fence]
     if r < 0.48:
-        return ["    " + rng.choice(["indented code", "x  y", "- z"]) for _ in range(rng.randint(1, 3))]
+        return ["    " + rng.choice(["indented code", "x  y", "- z", "wait...what", "it's \"q\"... done"]) for _ in range(rng.randint(1, 3))]
     if r < 0.62 and depth < 3:
         ordered = rng.random() < 0.4
         loose = rng.random() < 0.4
@@ -148,6 +165,11 @@ def block(rng: random.Random, depth=0) -> list[str]:
             if rng.random() < 0.15 and not ordered:
                 marker = bullet + " " + rng.choice(["[ ] ", "[x] "])
             inner = []
+            if rng.random() < 0.04 and "empty_items" not in AVOID:
+                out.append(marker.rstrip())
+                if loose:
+                    out.append("")
+                continue
             for j in range(rng.choice([1, 1, 1, 2, 3])):
                 b = block(rng, depth + 1) if j or rng.random() < 0.3 else para_lines(rng, hazards=False)
                 if inner:
@@ -171,7 +193,9 @@ def block(rng: random.Random, depth=0) -> list[str]:
         return [(">" + (" " if l else "") + l) if (i == 0 or not lazy or not l or l[0] in "->#`~|" or l[:1].isdigit()) else l for i, l in enumerate(inner)]
     if r < 0.76:
         ncol = rng.randint(1, 4)
-        head = "| " + " | ".join(inline(rng, 1, False).replace("|", "/") for _ in range(ncol)) + " |"
+        Lt = _L(rng)
+        pad = lambda c: c + Lt.choice(["", "", " ", "   "])  # noqa: E731
+        head = "| " + " | ".join(pad(inline(rng, 1, False).replace("|", "/") + (Lt.choice([" ", "  "]) + "w" if Lt.random() < 0 else "")) for _ in range(ncol)) + " |"
         delim = "|" + "|".join(rng.choice(["---", ":--", "--:", ":-:", "-"]) for _ in range(ncol)) + "|"
         rows = ["| " + " | ".join(rng.choice([inline(rng, 1, False).replace("|", "\\|"), "`a\\|b`", "", "x \\| y"]) for _ in range(ncol)) + " |" for _ in range(rng.randint(0, 3))]
         return [head, delim] + rows
